@@ -50,6 +50,8 @@ namespace vu::conv
          eqv< forty_two< 'a', 'b' >, rep< 42, one< 'a', 'b' > > >,
          eqv< string< 'a', 'b', 'c' >, seq< one< 'a' >, one< 'b' >, one< 'c' > > >,
          eqv< string< 'a' >, seq< one< 'a' > > >,
+         eqv< string< 'a', '\0', 'b' >, seq< one< 'a' >, one< '\0' >, one< 'b' > > >,      // a literal is a sequence of bytes, not a C string
+         eqv< two< '\0' >, string< '\0', '\0' > >,
          eqv< ranges< 'a', 'f', '0', '9' >, sor< range< 'a', 'f' >, range< '0', '9' > > >,
          eqv< ranges< 'a', 'f', '0', '9', '_' >, sor< range< 'a', 'f' >, range< '0', '9' >, one< '_' > > >,
          eqv< rep_string< 3, 'a', 'b' >, rep< 3, string< 'a', 'b' > > >,
